@@ -62,6 +62,8 @@ static std::string assignment(vf::Rng& r, Expect& e, bool cmdline, std::string& 
       int q = (int)r.below(3);
       if (q == 0) { std::string v = sval(false); tgt = v; kind = "string-plain"; return n + sep() + v; }
       std::string v = sval(true); char qc = q == 1 ? '\'' : '"'; if (r.chance(1, 3)) v += (q == 1 ? "\"in\"" : "'in'");
+      if (r.chance(1, 6)) v = "";                                         // boundary lengths of the quoted form: '' and 'x'
+      else if (r.chance(1, 8)) v = std::string(1, "ab1 =?"[r.below(6)]);
       tgt = v; kind = q == 1 ? "string-single-quoted" : "string-double-quoted"; return n + sep() + qc + v + qc; }
     case 6: { double v = dval(); std::string key; int n = r.range(1, 5); for (int i = 0; i < n; ++i) key += "abcdXY0123"[r.below(10)]; bool syn = r.chance(1, 2);
       e.wc[key] = v; kind = syn ? "wildcard-synonym" : "wildcard"; return (syn ? "wc_" + key + "_val" : "wc:" + key + ":val") + sep() + dstr(v); }
